@@ -25,7 +25,22 @@ META = {
 
 
 def _stores_field(b, fname):
+    """(block, idx, stmt|None) of every store into self.<fname>: assignments and Option::insert/replace/get_or_insert calls"""
     out = []
+    for bi, t in b.calls():
+        if t['func'].get('path') in P.OPT_INSERT + P.OPT_COND_INSERT and t['args']:
+            pl = t['args'][0].get('move') or t['args'][0].get('copy')
+            if pl is None:
+                continue
+            root = pl
+            # the receiver is `&mut (*self).f` held in a temporary: resolve through the engine in the caller; here a cheap
+            # syntactic resolution of the defining statement of the temporary is enough
+            for st in b.blocks[bi]['stmts']:
+                if st['k'] == 'assign' and st['place']['l'] == pl['l'] and not st['place']['p'] and st['rv']['k'] == 'ref':
+                    root = st['rv']['place']
+            names = [e.get('name') for e in root['p'] if isinstance(e, dict) and 'f' in e]
+            if root['l'] == 1 and names == [fname]:
+                out.append((bi, len(b.blocks[bi]['stmts']), None))
     for bi, blk in enumerate(b.blocks):
         if blk['cleanup']:
             continue
@@ -78,6 +93,13 @@ def run(ctx, tier):
             r_re.violations.append(Violation('C02', 'C02.reroot', p['adt'], 'no-writer', 'no function installs a problem definition (unrecognised shape)'))
         for b in writers:
             fn = ctx.fn(b)
+            for s in P.install_sites(fn, pdf):
+                if s['kind'] == 'conditional':
+                    r_re.violations.append(Violation(
+                        'C02', 'C02.reroot', b.path, 'conditional-install',
+                        'self.%s is installed with get_or_insert: the new problem definition is stored only when none was '
+                        'installed before, so a second setup keeps (and roots the trees at) the previous problem' % pdf,
+                        loc=b.loc(s['block'])))
             store_blocks = [bi for (bi, _si, _st) in _stores_field(b, pdf)]
             store_pts = [(bi, si) for (bi, si, _st) in _stores_field(b, pdf)]
             # every read of self.<pdf> in an installing function happens after the store (it sees the new problem)
@@ -94,6 +116,10 @@ def run(ctx, tier):
                     names = [e.get('name') for e in rp['p'] if isinstance(e, dict) and 'f' in e]
                     if not names or names[0] != pdf:
                         continue
+                    tt = blk['term']
+                    if tt['k'] == 'call' and tt['func'].get('path') in P.OPT_INSERT + P.OPT_COND_INSERT and tt['args'] and \
+                            (tt['args'][0].get('move') or tt['args'][0].get('copy') or {}).get('l') == st['place']['l']:
+                        continue        # the receiver borrow of the installing call itself
                     after = any((sb == bi and ssi < si) or (sb != bi and sb in dom.get(bi, ())) for (sb, ssi) in store_pts)
                     if not after:
                         r_re.violations.append(Violation('C02', 'C02.reroot', b.path, 'stale-read',
@@ -315,14 +341,20 @@ def _terminal_ok(ctx, p, fn, ob, cont, idx, gqs):
                     return False, 'the goal was tested on a node of %s but the path is extracted from %s without the selecting flag' % (
                         fmt_terms(ia[1])[:60], fmt_terms(ic[1])[:40])
     # (3) index taken from a list of goal-satisfying milestones: idx = unwrap(Some(cur)) set under contains(L, cur)
+    cands = []
     for n in idx:
-        cur = None
         if n[0] == 'unwrap':
             for m in n[1]:
                 if m[0] == 'agg' and m[2] == 'Some':
-                    cur = m[3][0][1]
-        if cur is None:
+                    cands.append((m[3][0][1], n[1]))
+    for li in range(len(fn.b.locals)):
+        if not fn.b.local_ty(li).startswith('std::option::Option<usize>'):
             continue
+        lt = fn.local_terms(li, (ob, 0))
+        if any(m[0] == 'agg' and m[2] == 'Some' for m in lt) and fn._payload(lt, 'Some', 0) == idx:
+            cands.append((idx, lt))
+    for (cur, inner0) in cands:
+        n = ('unwrap', inner0)
         for sb in range(fn.nb):
             si = fn.switch_info(sb)
             if si is None or fn.blocks[sb]['cleanup']:
